@@ -419,6 +419,53 @@ def run_exts_schedule(rec: Recorder, d: Path, schedule: str, reopen: bool):
 
 
 # ---------------------------------------------------------------------------------------------------------
+# contract (c) at a location that was used before
+# ---------------------------------------------------------------------------------------------------------
+def run_recreate(rec: Recorder, d: Path, how: str):
+    """A record created where an older record with a BIGGER manifest lived ('w' and delete_files remove the containers, the sidecars stay
+    behind): after every commit the sidecar on disk still matches hash and uuid in its container and the record opens."""
+    case = {"check": "recreate", "how": how}
+    rd = d / f"recreate-{how}"
+    rd.mkdir()
+    robj = None
+    try:
+        robj = IH5MFRecord(rd / NAME, "x")
+        for i in range(10):
+            robj[f"group-{i}/dataset-{i}"] = i
+            robj[f"group-{i}"].attrs[f"attribute-{i}"] = i
+        robj.commit_patch(manifest_exts=SL.E2)
+        robj.create_patch()
+        for i in range(10):
+            robj[f"more-{i}"] = i
+        robj.commit_patch()
+        robj.close()
+        if how == "w":
+            robj = IH5MFRecord(rd / NAME, "w")
+        else:
+            IH5MFRecord.delete_files(rd / NAME)
+            robj = IH5MFRecord(rd / NAME, "x")
+        robj["x"] = 1
+        robj.commit_patch()
+        check_manifest(rec, robj, f"recreated-{how}", dict(case, at=0), expected_exts={}, full=False)
+        robj.create_patch()
+        robj["y"] = 2
+        robj.commit_patch()
+        check_manifest(rec, robj, f"recreated-{how}", dict(case, at=1), expected_exts={}, full=False)
+        robj.close()
+        st, robj = guarded(lambda: IH5MFRecord(rd / NAME, "r"))
+        if rec.check(st == "ok", f"c10:c:recreated-{how}:rejected", f"a record created where a bigger one lived before is rejected on open: {robj}", case, FN_COMMIT + FN_OPEN):
+            rec.check(sorted(robj.keys()) == ["x", "y"], f"c10:c:recreated-{how}:view", f"the re-created record shows {sorted(robj.keys())}", case, FN_OPEN)
+        else:
+            robj = None
+    finally:
+        try:
+            robj.close(commit=False) if robj else None
+        except Exception:  # noqa
+            pass
+        shutil.rmtree(rd, ignore_errors=True)
+
+
+# ---------------------------------------------------------------------------------------------------------
 # driver
 # ---------------------------------------------------------------------------------------------------------
 LEN3_RECORDS = ("h03-patch", "h04-replace")
@@ -460,6 +507,10 @@ def run(tier: str, seed: int) -> dict:
                     merged.append(m)
                     reached["merged"] += 1
                     rec.case(("rec", m.hname), nontrivial=True)
+        # ---- (c) at a location used before ---------------------------------------------------------------
+        for how in ("w", "delete"):
+            run_recreate(rec, d, how)
+            rec.case(("recreate", how), nontrivial=True)
         # ---- (d) extension schedules --------------------------------------------------------------------
         for i, sched in enumerate("".join(t) for t in itertools.product(EXT_CHOICES, repeat=n_sched)):
             for reopen in ((False, True) if thorough else (bool(i % 2),)):
@@ -574,6 +625,8 @@ def replay(case: dict):
     with tmpdir() as d:
         if kind == "exts":
             run_exts_schedule(rec, d, case["schedule"], case["reopen"])
+        elif kind == "recreate":
+            run_recreate(rec, d, case["how"])
         elif kind in ("record", "update", "chain", "merged"):
             hname = case["hname"]
             base_name = hname.replace("+merged", "")
